@@ -132,6 +132,14 @@ def oracle(tr, script, meta, stats=None):
     except L.ClockError as e:
         return {"key": "clock", "what": "the trace does not fit the script's events: %s" % e}
     expire = script.cfg[1]
+    for l in lines:
+        if l.startswith("DUMP "):
+            f = dict(x.split("=", 1) for x in l.split()[2:])
+            if int(f["expire"]) != expire:
+                # a (fabricated) End of Data changed the expire interval: outside what this oracle can date
+                if stats is not None:
+                    stats["skipped_interval_change"] = stats.get("skipped_interval_change", 0) + 1
+                return None
     records = set()           # replay of the callbacks: records of source 1
     foreign0 = None
     last_success = None       # ghost
@@ -221,8 +229,6 @@ def oracle(tr, script, meta, stats=None):
                 prev_state = None
                 if stats is not None:
                     stats["stops"] += 1
-            if int(f["expire"]) != expire:
-                expire = int(f["expire"])     # the cache's End of Data changed it (only when the generator says so)
         if w[0] not in ("RECV",):
             since_marker = []
         i += 1
@@ -241,11 +247,13 @@ def check_one(script, meta, stats):
     if tr.crash:
         return ("crash", {"key": "crash", "what": "sanitizer/assert abort or garbage in the Impl trace", "detail": tr.crash[-1500:]}, r)
     d = R.first_diff(r["impl"], r["model"])
+    o = oracle(tr, script, meta, stats)          # the property oracle never looks at the model
+    if o:
+        if d:
+            o = dict(o, tie_also_broken={"index": d[0], "impl": d[1][:200], "model": d[2][:200]})
+        return ("spec", o, r)
     if d:
         return ("tie", {"key": "tie", "what": "Impl and Model traces differ", "index": d[0], "impl": d[1][:300], "model": d[2][:300]}, r)
-    o = oracle(tr, script, meta, stats)
-    if o:
-        return ("spec", o, r)
     return None
 
 
@@ -301,7 +309,7 @@ def run(chk):
                 "non-trivial = distinct script with >= 3 conversation steps",
         "samples": samples, "input_distribution": dist,
         "open_events_by_age_minus_expire": stats["open_delta"], "stops_checked": stats["stops"], "successful_syncs": stats["successes"],
-        "corpus_scripts": ncorpus,
+        "corpus_scripts": ncorpus, "scripts_skipped_by_oracle_interval_change": stats.get("skipped_interval_change", 0),
         "tie": "(b) line-by-line equality of the Impl and Model traces (callback blocks sorted)",
     })
     chk.assumptions += ["transport callbacks return >= 1 byte or an error and honour their timeout (the mock does)",
